@@ -560,7 +560,9 @@ class ProcessingItem(ProcessingItemBase):
         Evalutates detection item and field name conditions from processing item to detection item
         and returns result.
         """
-        if (
+        if not self.detection_item_conditions:  # no conditions: always matches
+            detection_item_cond_result = True
+        elif (
             self.detection_item_condition_expression is not None
         ):  # detection item condition expression
             detection_item_cond_result = self.detection_item_condition_expression.match(
@@ -576,10 +578,12 @@ class ProcessingItem(ProcessingItemBase):
             raise SigmaPipelineConditionError(
                 "No detection item condition expression or linking defined for processing item."
             )
-        if self.detection_item_condition_negation:
+        if self.detection_item_condition_negation and self.detection_item_conditions:
             detection_item_cond_result = not detection_item_cond_result
 
-        if self.field_name_condition_expression is not None:  # field name condition expression
+        if not self.field_name_conditions:  # no conditions: always matches
+            field_name_cond_result = True
+        elif self.field_name_condition_expression is not None:  # field name condition expression
             field_name_cond_result = self.field_name_condition_expression.match_detection_item(
                 detection_item
             )
@@ -596,7 +600,7 @@ class ProcessingItem(ProcessingItemBase):
             raise SigmaPipelineConditionError(
                 "No field name condition expression or linking defined for processing item."
             )
-        if self.field_name_condition_negation:
+        if self.field_name_condition_negation and self.field_name_conditions:
             field_name_cond_result = not field_name_cond_result
 
         return detection_item_cond_result and field_name_cond_result
@@ -605,6 +609,8 @@ class ProcessingItem(ProcessingItemBase):
         """
         Evaluate field name conditions on field names and return result.
         """
+        if not self.field_name_conditions:  # no conditions: always matches
+            return True
         if self.field_name_condition_expression is not None:  # field name condition expression
             field_name_cond_result = self.field_name_condition_expression.match_field_name(field)
         elif self.field_name_condition_linking is not None and isinstance(
@@ -628,6 +634,8 @@ class ProcessingItem(ProcessingItemBase):
         Evaluate field name conditions in field reference values and return result.
         """
         if isinstance(value, SigmaFieldReference):
+            if not self.field_name_conditions:  # no conditions: always matches
+                return True
             if self.field_name_condition_expression is not None:  # field name condition expression
                 field_name_cond_result = self.field_name_condition_expression.match_field_name(
                     value.field
